@@ -34,7 +34,7 @@ with ThreadPoolExecutor(14) as p:
             if trace and 'trace' in o:
                 ent = res.get('entry')
                 for st in o['trace']:
-                    if (st.get('fn') == ent or str(st.get('lhs', '')).startswith('g_last_')) and 'lhs' in st and not str(st['value']).endswith('@1') and (st['lhs'].isidentifier() or st['lhs'].startswith('buf[')) and (not st['lhs'].startswith('return_value') or st['lhs'].startswith('return_value_nondet_')) and not st['lhs'].startswith('tmp_'):
+                    if (os.environ.get('ANYFN') or st.get('fn') == ent or str(st.get('lhs', '')).startswith('g_last_')) and 'lhs' in st and not str(st['value']).endswith('@1') and (st['lhs'].isidentifier() or st['lhs'].startswith('buf[')) and (not st['lhs'].startswith('return_value') or st['lhs'].startswith('return_value_nondet_')) and not st['lhs'].startswith('tmp_'):
                         showre = os.environ.get('SHOWRE')
                         if showre:
                             import re as _re
